@@ -383,11 +383,12 @@ def check_limit(ctx):
 
     for n in (1294,):
         m = BMSMap()
-        m.bpms = BMSBpmList([BMSBpm(2000.0 * i, 120.0) for i in range(n)])
-        m.hits = BMSHitList([BMSHit(500.0, 1, b"a.wav"), BMSHit(2000.0 * (n - 1) + 500.0, 2, b"a.wav")])
+        # one tempo point per beat (a BMS file has at most 1000 measures, so they cannot all sit on measure lines)
+        m.bpms = BMSBpmList([BMSBpm(500.0 * i, 120.0) for i in range(n)])
+        m.hits = BMSHitList([BMSHit(500.0, 1, b"a.wav"), BMSHit(500.0 * (n - 1) + 250.0, 2, b"a.wav")])
         m.samples = {b"0A": b"a.wav"}
         m.title, m.artist, m.version = b"t", b"a", b"7"
-        den = [("hit", 1, 500.0, 0.0, b"a.wav"), ("hit", 2, 2000.0 * (n - 1) + 500.0, 0.0, b"a.wav")]
+        den = [("hit", 1, 500.0, 0.0, b"a.wav"), ("hit", 2, 500.0 * (n - 1) + 250.0, 0.0, b"a.wav")]
         ctx.case()
         ctx.state(("bmsw-limit", n), nontrivial=True)
         judge(m, "BME", den, [(0.0, 120.0)], True, lambda t: 120.0, dict(route="limit", devs=[]), dict(limit=n), ctx)
